@@ -1098,7 +1098,7 @@ def _color_to_rgb_or_rgba(color, alpha_float=True):
     :rtype: tuple
     """
     rgba = _color_to_rgba(color, alpha_float=alpha_float)
-    if rgba[3] in (1.0, 255):
+    if rgba[3] == (1.0 if alpha_float else 255):
         return rgba[:3]
     return rgba
 
